@@ -31,7 +31,7 @@ def load_known_findings(prop):
     if os.path.exists(KNOWN_FINDINGS):
         for line in open(KNOWN_FINDINGS):
             line = line.strip()
-            if not line or line.startswith('#'):
+            if not line or line.startswith('#') or line.startswith('fixed:'):
                 continue
             rec = json.loads(line)
             if rec.get('property') == prop and rec.get('status', 'open') == 'open':
@@ -221,25 +221,32 @@ _real_build = None
 
 
 def real_build():
-    """Copy /repo's working tree to scratch and build _cffi_backend there.
-    Returns the path to put on PYTHONPATH (scratch/src)."""
+    """Copy /repo's working tree to scratch and build _cffi_backend there (once per run,
+    shared by forked workers through a lock file).  Returns the path to put on PYTHONPATH."""
     global _real_build
     if _real_build is not None:
         return _real_build
-    dst = os.path.join(scratch_dir(), 'tree')
-    os.makedirs(dst)
-    for name in ('setup.py', 'setup_base.py', 'pyproject.toml', 'README.md', 'LICENSE', 'MANIFEST.in'):
-        p = os.path.join(REPO, name)
-        if os.path.exists(p):
-            shutil.copy2(p, dst)
-    shutil.copytree(os.path.join(REPO, 'src'), os.path.join(dst, 'src'),
-                    ignore=shutil.ignore_patterns('*.so', '__pycache__', '*.egg-info', 'build'))
-    log = os.path.join(scratch_dir(), 'build.log')
-    with open(log, 'w') as f:
-        r = subprocess.run(['/venv/bin/python', 'setup.py', '-q', 'build_ext', '-i'],
-                           cwd=dst, stdout=f, stderr=subprocess.STDOUT)
-    if r.returncode != 0:
-        raise HarnessError('real build failed, see ' + log + '\n' + open(log).read()[-2000:])
+    import fcntl
+    sd = scratch_dir()
+    dst = os.path.join(sd, 'tree')
+    with open(os.path.join(sd, 'build.lock'), 'w') as lk:
+        fcntl.flock(lk, fcntl.LOCK_EX)
+        if not os.path.exists(os.path.join(sd, 'build.ok')):
+            shutil.rmtree(dst, ignore_errors=True)
+            os.makedirs(dst)
+            for name in ('setup.py', 'setup_base.py', 'pyproject.toml', 'README.md', 'LICENSE', 'MANIFEST.in'):
+                p = os.path.join(REPO, name)
+                if os.path.exists(p):
+                    shutil.copy2(p, dst)
+            shutil.copytree(os.path.join(REPO, 'src'), os.path.join(dst, 'src'),
+                            ignore=shutil.ignore_patterns('*.so', '__pycache__', '*.egg-info', 'build'))
+            log = os.path.join(sd, 'build.log')
+            with open(log, 'w') as f:
+                r = subprocess.run(['/venv/bin/python', 'setup.py', '-q', 'build_ext', '-i'],
+                                   cwd=dst, stdout=f, stderr=subprocess.STDOUT)
+            if r.returncode != 0:
+                raise HarnessError('real build failed:\n' + open(log).read()[-2000:])
+            open(os.path.join(sd, 'build.ok'), 'w').close()
     _real_build = os.path.join(dst, 'src')
     return _real_build
 
